@@ -81,6 +81,14 @@ type rWorld struct {
 	tb     *vtable
 	noFrom bool
 	built  bool
+	held   []heldPtr // pointers handed to Set earlier, with what they pointed to then
+}
+
+// heldPtr: the caller keeps the variable whose address it gave to Set; nothing done to any
+// resource later may change it
+type heldPtr struct {
+	ptr  any
+	want any
 }
 
 func (w *rWorld) project() []rEntry {
@@ -167,7 +175,16 @@ func (w *rWorld) apply(op rOp) (ret string, applicable bool) {
 					applicable = false
 					return
 				}
-				setField(o.res, op.F, d, op.V, w.km, w.tb)
+				if d.Kind == "attr" && d.Null && !op.V.Nil {
+					val := w.tb.concrete(w.km.real(d.K), true, op.V.R, false)
+					o.res.Set(op.F, val)
+					want := reflect.ValueOf(val).Elem().Interface()
+					if _, isBytes := want.([]byte); !isBytes { // (a byte slice is shared by nature: MutSlice writes through it)
+						w.held = append(w.held, heldPtr{ptr: val, want: want})
+					}
+				} else {
+					setField(o.res, op.F, d, op.V, w.km, w.tb)
+				}
 			}
 		case "SetID":
 			o.res.Set("id", op.ID)
@@ -266,9 +283,19 @@ func (w *rWorld) apply(op rOp) (ret string, applicable bool) {
 			infra("unknown resource op %q", op.Op)
 		}
 	})
+	callerChanged := false
+	{
+		for _, h := range w.held {
+			if !sameValue(reflect.ValueOf(h.ptr).Elem().Interface(), h.want) {
+				callerChanged = true
+			}
+		}
+	}
 	switch {
 	case p:
 		return "panic", applicable
+	case callerChanged:
+		return "caller-value-changed", applicable // a variable whose address was given to Set earlier was written to
 	case !sameDefs:
 		return "defs-differ", applicable // the copy / new instance does not have the source's definitions
 	case leak:
